@@ -59,6 +59,7 @@ func main() {
 	undoUses := map[string]map[string]bool{} // journal entry struct -> fields its undo method reads
 	var literals []string                    // "type:field,field" per composite literal of a journal entry type
 	pkgVars := map[string]bool{}             // package-level variables
+	stateFields := map[string][]string{}     // fields of the state-carrying structs
 	var stateWriters, forkReads []string     // "func:var" assignments to package-level state; "func:flag" fork flag reads
 	for _, pkg := range pkgs {
 		for _, f := range pkg.Files {
@@ -80,6 +81,15 @@ func main() {
 					for _, sp := range gd.Specs {
 						ts := sp.(*ast.TypeSpec)
 						st, ok := ts.Type.(*ast.StructType)
+						if ok && (ts.Name.Name == "accountObject" || ts.Name.Name == "AccountDB" || ts.Name.Name == "Account" || ts.Name.Name == "accessList") {
+							var fs []string
+							for _, fl := range st.Fields.List {
+								for _, n := range fl.Names {
+									fs = append(fs, n.Name)
+								}
+							}
+							stateFields[ts.Name.Name] = fs
+						}
 						if !ok || !strings.HasSuffix(ts.Name.Name, "Change") {
 							continue
 						}
@@ -296,6 +306,20 @@ func main() {
 	sort.Strings(forkReads)
 	fmt.Fprintf(&sb, "/-- assignments to package-level variables: function:variable -/\ndef pkgStateWriters : List String := %s\n\n", q(stateWriters))
 	fmt.Fprintf(&sb, "/-- reads of fork / configuration flags: function:flag -/\ndef forkReads : List String := %s\n\n", q(forkReads))
+	var sn []string
+	for n := range stateFields {
+		sn = append(sn, n)
+	}
+	sort.Strings(sn)
+	sb.WriteString("/-- fields of the structs that carry the state (a new cache / memo field shows up here) -/\ndef stateFields : List (String × List String) := [\n")
+	for i, n := range sn {
+		sep := ","
+		if i == len(sn)-1 {
+			sep = ""
+		}
+		fmt.Fprintf(&sb, "  (%q, %s)%s\n", n, q(stateFields[n]), sep)
+	}
+	sb.WriteString("]\n\n")
 	sb.WriteString("end Rangers.Generated.JournalFacts\n")
 	if err := os.WriteFile(out, []byte(sb.String()), 0644); err != nil {
 		fmt.Fprintln(os.Stderr, err)
